@@ -96,5 +96,6 @@ func init() {
 		Assumptions: []string{"only key/value types whose encoding round-trips are generated (the property's own restriction)"},
 		Gen:         genC05,
 		Run:         runC05,
+		Enumerate:   enumWide,
 	})
 }
